@@ -259,7 +259,10 @@ impl Angle {
     /// ```
     #[must_use]
     pub fn wrap(self, min: Self, max: Self) -> Self {
-        Self(min.0 + f32::rem_euclid(self.0 - min.0, max.0 - min.0))
+        let w = min.0 + f32::rem_euclid(self.0 - min.0, max.0 - min.0);
+        // `max - min` and the sum are both rounded: for an angle a hair
+        // below `min` the result can land an ulp above `max`
+        Self(if min.0 < max.0 && w > max.0 { max.0 } else { w })
     }
 }
 
